@@ -155,4 +155,55 @@ def sourcesLoop (geoNames : List Str) (nAtm : Nat) (ubn : Bool) :
 def sources (geoNames : List Str) (nAtm : Nat) (gens : List Gener) (dictSize : Nat) : Except Exc (List Source) :=
   sourcesLoop geoNames nAtm (decide (dictSize < gens.length)) gens [] []
 
+
+/-! ### boundaries_json: which cells the faces of a boundary block name
+
+  For every block of `grid.blocklist` that is a boundary block (`not (0. < volume < atmos_volume)`), and every
+  connection name of that block (`blk.connection_name` is a *set*: the order in which its members come is not
+  fixed, so results are compared as multisets), the other end of the connection — if it is a non-boundary
+  block — contributes a face with `cells = [its cell index]`.  A boundary block whose faces list stays empty
+  yields no boundary entry at all.  (Normals, primary variables and the two "collapse equal entries" passes
+  are outside the model.) -/
+
+/-- `names = list(conname); names.remove(blk.name); names[0]` -/
+def otherEnd (c : Str × Str) (b : Str) : Str := if c.1 == b then c.2 else c.1
+
+/-- the faces loop of one boundary block over its connection names -/
+def faceCellsLoop (geoNames : List Str) (nAtm : Nat) (blocks : List WBlock) (atmos : Rat) (b : Str) :
+    List (Str × Str) → Except Exc (List Int)
+  | [] => .ok []
+  | c :: rest =>
+    match findBlock blocks (otherEnd c b) with
+    | Option.none => .error .keyError                       -- self.grid.block[interior_blkname]
+    | some w =>
+      if interior atmos w then
+        match lastIdx geoNames (otherEnd c b) with
+        | Option.none => .error .keyError                   -- geo.block_name_index[interior_blkname]
+        | some i =>
+          match faceCellsLoop geoNames nAtm blocks atmos b rest with
+          | .ok cs => .ok (((i : Int) - nAtm) :: cs)
+          | .error e => .error e
+      else faceCellsLoop geoNames nAtm blocks atmos b rest
+
+/-- the connection names of a block (those that contain its name) -/
+def connsOf (conns : List (Str × Str)) (b : Str) : List (Str × Str) := conns.filter (fun c => c.1 == b || c.2 == b)
+
+/-- the boundary entries: (boundary block, cells of its faces) for the boundary blocks that have faces -/
+def boundaryFacesLoop (geoNames : List Str) (nAtm : Nat) (blocks : List WBlock) (atmos : Rat) (conns : List (Str × Str)) :
+    List WBlock → Except Exc (List (Str × List Int))
+  | [] => .ok []
+  | b :: rest =>
+    if interior atmos b then boundaryFacesLoop geoNames nAtm blocks atmos conns rest
+    else
+      match faceCellsLoop geoNames nAtm blocks atmos b.name (connsOf conns b.name) with
+      | .error e => .error e
+      | .ok cs =>
+        match boundaryFacesLoop geoNames nAtm blocks atmos conns rest with
+        | .error e => .error e
+        | .ok r => .ok (if cs.isEmpty then r else (b.name, cs) :: r)
+
+def boundaryFaces (geoNames : List Str) (nAtm : Nat) (blocks : List WBlock) (atmos : Rat) (conns : List (Str × Str)) :
+    Except Exc (List (Str × List Int)) :=
+  boundaryFacesLoop geoNames nAtm blocks atmos conns blocks
+
 end Model.Waiwera
